@@ -266,6 +266,12 @@ func (r *c02Runner) prepare(e *Enc, d uint8, k int) {
 	if e.NPos >= 0 {
 		r.code[e.NPos] = p.N
 	}
+	// the cube runs on a by-value copy of a CPU with a past (warmFork)
+	r.mem.Reset()
+	lim := r.mem.Limit
+	r.mem.Limit = 0
+	r.cpu = warmFork(r.mem, r.io, r.mem.Poke, &r.base, r.code)
+	r.mem.Limit = lim
 	r.mem.Reset()
 	r.mem.Poke(r.pc, r.code...)
 	switch r.loc {
